@@ -136,17 +136,21 @@ Qed.
 
 (* the run of read_card over any replies: the accumulator is only ever set by a status information;
    a listed application makes it Bank, never Membership *)
-Theorem bank_if_listed ixa ixs acc v tlv s0 rest app :
+Theorem bank_if_listed ixa ixs acc v tlv subs s app :
   ixs <> ixa ->
   field_of "zvt::packets::StatusInformation" v 6 = Some (VSome tlv) ->
-  field_of "zvt::packets::tlv::StatusInformation" tlv 96 = Some (VList (s0 :: rest)) ->
-  field_of "zvt::packets::tlv::Subs" s0 67 = Some (VSome app) ->
+  field_of "zvt::packets::tlv::StatusInformation" tlv 96 = Some (VList subs) ->
+  In s subs -> field_of "zvt::packets::tlv::Subs" s 67 = Some (VSome app) ->
   h_read_card ixa ixs acc ixs v = (None, Some CBank).
 Proof.
-  intros H H1 H2 H3. unfold h_read_card. destruct (ixs =? ixa) eqn:E; [lia|]. rewrite N.eqb_refl, H1, H2, H3. reflexivity.
+  intros H H1 H2 Hin H3. unfold h_read_card. destruct (ixs =? ixa) eqn:E; [lia|]. rewrite N.eqb_refl, H1, H2.
+  destruct subs as [|s0 sr]; [contradiction|].
+  assert (X : existsb has_application (s0 :: sr) = true).
+  { apply existsb_exists. exists s. split; [exact Hin|]. unfold has_application. rewrite H3. reflexivity. }
+  rewrite X. reflexivity.
 Qed.
 
-(* ... whatever else the entry carries: with an application listed, the answer is Bank or an error,
+(* ... whatever else the entries carry: with an application list the answer is Bank or an error,
    the accumulator never becomes a membership id *)
 Theorem listed_never_membership ixa ixs acc v tlv s0 rest :
   ixs <> ixa ->
@@ -156,7 +160,19 @@ Theorem listed_never_membership ixa ixs acc v tlv s0 rest :
   h_read_card ixa ixs acc ixs v = (Some (RErr EUnknownCardType), acc).
 Proof.
   intros H H1 H2. unfold h_read_card. destruct (ixs =? ixa) eqn:E; [lia|]. rewrite N.eqb_refl, H1, H2.
-  destruct (field_of "zvt::packets::tlv::Subs" s0 67) as [[| | | | |x| |]|]; (left; reflexivity) || (right; reflexivity).
+  destruct (existsb has_application (s0 :: rest)); [left|right]; reflexivity.
+Qed.
+
+(* the open finding of C18 (known_findings.json), stated exactly: a list none of whose entries names an application makes the call
+   fail with "unknown card type" — also when the terminal reports a UID, which the property wants reported as membership id *)
+Theorem idless_list_is_unknown_card_type ixa ixs acc v tlv s0 rest :
+  ixs <> ixa ->
+  field_of "zvt::packets::StatusInformation" v 6 = Some (VSome tlv) ->
+  field_of "zvt::packets::tlv::StatusInformation" tlv 96 = Some (VList (s0 :: rest)) ->
+  existsb has_application (s0 :: rest) = false ->
+  h_read_card ixa ixs acc ixs v = (Some (RErr EUnknownCardType), acc).
+Proof.
+  intros H H1 H2 H3. unfold h_read_card. destruct (ixs =? ixa) eqn:E; [lia|]. rewrite N.eqb_refl, H1, H2, H3. reflexivity.
 Qed.
 
 Theorem membership_canonical ixa ixs acc v tlv u :
@@ -649,9 +665,20 @@ Qed.
 
 (* every receipt number the terminal reports — 0 .. 9999 or anything else — is handed on for reversal; only the FFFF marker means
    "nothing pending" *)
-Theorem pending_reports_receipt ixa v r : field_of "zvt::packets::PartialReversalAbort" v 135 = Some (VSome (VInt r)) ->
+Theorem pending_reports_receipt ixa v r : abort_code v = 184 ->
+  field_of "zvt::packets::PartialReversalAbort" v 135 = Some (VSome (VInt r)) ->
   fst (h_pending ixa tt ixa v) = Some (if r =? 65535 then ROk [] else ROk [r]).
-Proof. intros H. unfold h_pending. rewrite N.eqb_refl, H. cbn [fst]. destruct (r =? 65535); reflexivity. Qed.
+Proof. intros Hc H. unfold h_pending. rewrite N.eqb_refl, Hc, H. cbn [fst negb N.eqb]. destruct (r =? 65535); reflexivity. Qed.
+
+(* C20, since the fix of F11: the query itself can be aborted — any result code other than 0xB8 (the code its answer carries) makes the
+   query, and with it the chain and the call, fail with that code *)
+Theorem pending_abort_surfaces ixa v : abort_code v <> 184 ->
+  fst (h_pending ixa tt ixa v) = Some (RErr (EAborted (abort_code v))).
+Proof. intros Hc. unfold h_pending. rewrite N.eqb_refl. destruct (abort_code v =? 184) eqn:E; [lia|reflexivity]. Qed.
+
+Theorem pending_query_abort_surfaces c ixa rest : c <> 184 ->
+  fst (h_pending ixa tt ixa (VRec (VInt c :: rest))) = Some (RErr (EAborted c)).
+Proof. intros H. apply (pending_abort_surfaces ixa (VRec (VInt c :: rest))). exact H. Qed.
 
 Theorem pending_other_packet_is_unexpected ixa i v : i <> ixa -> fst (h_pending ixa tt i v) = Some (RErr EUnexpectedPacket).
 Proof. intros H. unfold h_pending. destruct (i =? ixa) eqn:E; [lia|reflexivity]. Qed.
